@@ -30,15 +30,10 @@ Definition pairs {A B} (l : list A) (r : list B) : list (A * B) := flat_map (fun
 Definition sweep_rr : list (Z * stmt) :=
   flat_map (fun m => flat_map (fun op => flat_map (fun rs => map (fun ab => (m, SMnem op [ident (fst ab); ident (snd ab)])) (pairs rs rs)) [r8; r16; r32]) ("MOV" :: alu)) modes.
 
-(* immediates inside the cells where the 66h decision is right: byte registers any class; r16 within int16 in 16-bit mode,
-   int8 in 32-bit mode; r32 int8 or beyond int16 in 32-bit mode, anything below 2^31 in 16-bit mode *)
-Definition imm_ok (m w v : Z) : bool :=
-  let c8 := (-128 <=? v) && (v <=? 127) in
-  let c16 := (-32768 <=? v) && (v <=? 32767) in
-  if w =? 8 then (if m =? 16 then c16 else c8 || negb c16)
-  else if m =? 16 then (if w =? 16 then c16 else true)
-  else (if w =? 16 then c8 else c8 || negb c16).
-Definition imms : list Z := [0; 1; -1; 127; 128; 255; -128; -129; 256; 32767; -32768; 4660; 65535; 65536; 2147483647; -2147483648; 305419896].
+(* every immediate that is representable in the operand width (signed or unsigned reading); before the Require66h fix in
+   /repo this had to exclude the cells where the size class of the immediate produced a bogus 66h prefix *)
+Definition imm_ok (m w v : Z) : bool := (- 2 ^ (w - 1) <=? v) && (v <? 2 ^ w).
+Definition imms : list Z := [0; 1; -1; 127; 128; 255; -128; -129; 256; 32767; 32768; -32768; 4660; 65407; 65408; 65535; 65536; 2147483647; 2147483648; -2147483648; 305419896; 4294967167; 4294967168; 4294967295].
 Definition sweep_ri : list (Z * stmt) :=
   flat_map (fun m => flat_map (fun op => flat_map (fun wr => flat_map (fun r => flat_map (fun v =>
       if imm_ok m (fst wr) v then [(m, SMnem op [ident r; num v])] else []) imms) (snd wr)) [(8, r8); (16, r16); (32, r32)]) ("MOV" :: alu)) modes.
@@ -62,7 +57,21 @@ Lemma sweep_port_ok : forallb ok01 sweep_port = true.
 Proof. vm_compute. reflexivity. Qed.
 
 (* C18: the same register/immediate and stack cells are emitted in the shortest form *)
-Lemma sweep_ri_short : forallb ok18 sweep_ri = true.
+(* C18 domain: the cells of sweep_ri except 16/32-bit immediates written as unsigned values >= 2^(w-1) whose value modulo
+   2^w fits int8 (0xff80..0xffff, 0xffffff80..0xffffffff): gosk encodes those with the full-width immediate
+   (finding C18-unsigned-imm-not-sign-extended) *)
+Definition wrap_fits8 (w v : Z) : bool := negb (w =? 8) && (2 ^ (w - 1) <=? v) && (-128 <=? v - 2 ^ w).
+Definition width_of_reg (st : stmt) : Z :=
+  match st with
+  | SMnem _ (EAdd (EMul (EImm (FId r)) []) [] :: _) => if existsb (String.eqb r) r8 then 8 else if existsb (String.eqb r) r16 then 16 else 32
+  | _ => 0
+  end.
+Definition imm_of (st : stmt) : Z :=
+  match st with SMnem _ [_; EAdd (EMul (EImm (FNum v)) []) []] => v | _ => 0 end.
+Definition is_mov (st : stmt) : bool := match st with SMnem op _ => String.eqb op "MOV" | _ => false end.
+Definition sweep_ri18 : list (Z * stmt) :=
+  filter (fun c => is_mov (snd c) || negb (wrap_fits8 (width_of_reg (snd c)) (imm_of (snd c)))) sweep_ri.
+Lemma sweep_ri_short : forallb ok18 sweep_ri18 = true.
 Proof. vm_compute. reflexivity. Qed.
 Lemma sweep_stack_short : forallb ok18 sweep_stack = true.
 Proof. vm_compute. reflexivity. Qed.
